@@ -78,6 +78,7 @@ def viterbi(n, tag, dep, categories, admitted, memo, roots, penalty, max_rounds=
     dep = numpy.asarray(dep, dtype=numpy.float64)
     roots = set(roots)
     chart = {}
+    proposals = set()     # distinct scores of complete root-licensed derivation classes
 
     def close_unary(cell):
         rounds = 0
@@ -125,6 +126,8 @@ def viterbi(n, tag, dep, categories, admitted, memo, roots, penalty, max_rounds=
                                 head, child = rh, lh
                             s = ls + rs + _dep(dep, child, head)
                             key = (r.cat, head)
+                            if length == n and r.cat in roots:
+                                proposals.add(round(s + float(dep[head, 0]), 9))
                             if s > cell.get(key, -math.inf):
                                 cell[key] = s
             if length != n:
@@ -134,8 +137,11 @@ def viterbi(n, tag, dep, categories, admitted, memo, roots, penalty, max_rounds=
     for (cat, head), s in chart[(0, n)].items():
         if cat in roots:
             total = s + float(dep[head, 0])
+            if n == 1:
+                proposals.add(round(total, 9))
             if best is None or total > best:
                 best = total
+    viterbi.last_alternatives = len(proposals)
     return best
 
 
